@@ -118,6 +118,9 @@ func c11Victims() []c11Victim {
 			_, err := p.DeleteObject(st.ctx(), &s3.DeleteObjectInput{Bucket: sp(c11Bucket), Key: sp("d1/d2/k")})
 			return err
 		}},
+		{Name: "PutBucketVersioning Suspended", Key: "k", NeedsVersioning: true, Prep: seed("k"), Run: func(st *pxStore, p *posix.Posix, c map[string]string) error {
+			return p.PutBucketVersioning(st.ctx(), c11Bucket, types.BucketVersioningStatusSuspended)
+		}},
 		{Name: "DeleteObject by version id of the current version", Key: "k", NeedsVersioning: true, Prep: func(st *pxStore) map[string]string {
 			seed("k")(st)
 			if err := put(st, st.A, "k", v1, nil); err != nil {
@@ -149,8 +152,30 @@ func c11Complete(key string) func(st *pxStore, p *posix.Posix, c map[string]stri
 func hashS(b []byte) string { h := sha256.Sum256(b); return hex.EncodeToString(h[:6]) }
 
 // c11Observe renders everything the API shows about the key (and the upload), ids masked.
-func c11Observe(st *pxStore, p *posix.Posix, key string, ctxm map[string]string) string {
+func c11Observe(st *pxStore, p *posix.Posix, key string, ctxm map[string]string) (out string) {
+	// a request that panics would take the gateway process down: that is an observation, not a tooling error
+	defer func() {
+		if rec := recover(); rec != nil {
+			out = "PANIC:" + ck.Short(fmt.Sprint(rec), 80) + "\n"
+		}
+	}()
+	return c11ObserveInner(st, p, key, ctxm)
+}
+
+func c11ObserveInner(st *pxStore, p *posix.Posix, key string, ctxm map[string]string) string {
 	var b strings.Builder
+	if st.Cfg.Versioning {
+		vs, verr := p.GetBucketVersioning(st.ctx(), c11Bucket)
+		status := ""
+		if vs.Status != nil {
+			status = string(*vs.Status)
+		}
+		es := ""
+		if verr != nil {
+			es = errClassAPI(verr)
+		}
+		fmt.Fprintf(&b, "BUCKET-VERSIONING:%s %s\n", status, es)
+	}
 	get, err := p.GetObject(st.ctx(), &s3.GetObjectInput{Bucket: sp(c11Bucket), Key: &key, Range: sp("")})
 	if err != nil {
 		fmt.Fprintf(&b, "GET:%s\n", errClassAPI(err))
@@ -261,7 +286,7 @@ var rePath = regexp.MustCompile(`"?/[^ :"]+"?`)
 func C11(r *ck.Run) {
 	requireInstrumented()
 	r.Level = "fault_enumeration"
-	r.Rule("for every victim operation (PutObject new / overwrite / nested / with tags / with tags+legal hold+retention, CopyObject, UploadPart re-upload, CompleteMultipartUpload new / overwrite, DeleteObject plain / nested with parent pruning / by version id) × storage configuration {O_TMPFILE, named temp} × {xattr, sidecar} × {unversioned, versioning enabled}: the process is killed before EVERY file-system step of the operation (the logical thread is frozen before step i, its file descriptors are closed, deferred Go code does not reach the file system), a new backend instance is started on the same storage and everything the API shows about the key is compared with the complete previous and the complete new state (an interrupted multipart completion that left the previous state must be repeatable); distinct = (configuration, victim, crash point)")
+	r.Rule("for every victim operation (PutObject new / overwrite / nested / with tags / with tags+legal hold+retention, CopyObject, UploadPart re-upload, CompleteMultipartUpload new / overwrite, DeleteObject plain / nested with parent pruning / by version id, PutBucketVersioning) × storage configuration {O_TMPFILE, named temp} × {xattr, sidecar} × {unversioned, versioning enabled}: the process is killed before EVERY file-system step of the operation (the logical thread is frozen before step i, its file descriptors are closed, deferred Go code does not reach the file system), a new backend instance is started on the same storage and everything the API shows about the key is compared with the complete previous and the complete new state (an interrupted multipart completion that left the previous state must be repeatable); distinct = (configuration, victim, crash point)")
 	r.Assume("a killed process loses its file descriptors and runs no deferred code; page-cache contents survive (process crash, not power loss); single syscalls are atomic")
 	cfgs := []pxCfg{{}, {NoTmp: true}, {Versioning: true}, {NoTmp: true, Versioning: true}}
 	if r.Thorough() {
